@@ -163,6 +163,32 @@ pub fn run(ctx: &Ctx) -> i32 {
             }
         }
     }
+    // size extremes: sparse files far larger than memory (all zero bytes: first word x0000)
+    let mut sparse_acc = Acc::new();
+    for (len, label) in [(1u64 << 42, "4TiB"), ((1u64 << 42) + 1, "4TiB+1"), (131074, "131074")] {
+        for ext in ["lc3", "obj"] {
+            let file = format!("sparse-{label}.{ext}");
+            let path = lace.cwd.join(&file);
+            let made = std::fs::File::create(&path).and_then(|f| f.set_len(len));
+            if made.is_err() {
+                let _ = std::fs::remove_file(&path);
+                sparse_acc.skip("file system refuses a sparse file of that size");
+                continue;
+            }
+            sparse_acc.eval("loader-sparse");
+            let r = lace.run_timeout(&["run", &file, "--minimal"], b"", &[], None, 120);
+            let _ = std::fs::remove_file(&path);
+            let case = json!({"loader_sparse": true, "file": file, "length": len});
+            if r.class() == "crash" || r.class() == "timeout" {
+                sparse_acc.violation("C06/loader/crash/unloadable-sparse", format!("loading a sparse file of {len} zero bytes crashed (status {}): {}", r.status, r.err().lines().last().unwrap_or("")), case);
+            } else if r.status == 0 {
+                sparse_acc.violation("C06/loader/accepts-unloadable/too-long", format!("a file of {len} bytes was accepted"), case);
+            } else {
+                sparse_acc.nontrivial();
+                sparse_acc.outcome(format!("loader/sparse/rejected/status{}", r.status));
+            }
+        }
+    }
     let parts = pooled(None, files.len() * 2, 1, Acc::new, |acc, k| {
         let (name, bytes) = &files[k / 2];
         let ext = if k % 2 == 0 { "lc3" } else { "obj" };
@@ -217,11 +243,12 @@ pub fn run(ctx: &Ctx) -> i32 {
     for p in parts {
         acc.merge(p);
     }
+    acc.merge(sparse_acc);
     finish(
         ctx,
         acc,
         Level { category: "model_checking", bfs: None },
-        "enumeration against the real binary: (1) 26 accepted programs (10 seeds covering every statement kind, 13 origins from x0000 to xFFFF, data words of every byte class, no HALT, error exit): `lace compile` output (onto a fresh, a longer, a shorter and an equally long pre-existing destination in turn) must be byte-for-byte 2(n+1) big-endian bytes of the reference image, and `lace run` of the .lc3 and of the same bytes as .obj must give the same exit status and stdout as `lace run` of the source; (2) the loader on every length 0..6 x 4 fill bytes, and for first word in {x0000,x3000,xFDFF,xFE00,xFFFD,xFFFE,xFFFF} images ending two below, one below, exactly at, one above and two above the top of memory, each with and without a trailing odd byte, under both extensions: accepted iff even, non-empty and origin+n+1 <= x10000, rejected with a non-zero status that is not a crash, accepted images exit as the machine model says. non-trivial = agreeing cases",
+        "enumeration against the real binary: (1) 26 accepted programs (10 seeds covering every statement kind, 13 origins from x0000 to xFFFF, data words of every byte class, no HALT, error exit): `lace compile` output (onto a fresh, a longer, a shorter and an equally long pre-existing destination in turn) must be byte-for-byte 2(n+1) big-endian bytes of the reference image, and `lace run` of the .lc3 and of the same bytes as .obj must give the same exit status and stdout as `lace run` of the source; (2) the loader on every length 0..6 x 4 fill bytes, and for first word in {x0000,x3000,xFDFF,xFE00,xFFFD,xFFFE,xFFFF} images ending two below, one below, exactly at, one above and two above the top of memory, each with and without a trailing odd byte, under both extensions: plus sparse files of 131074, 2^42 and 2^42+1 zero bytes; accepted iff even, non-empty and origin+n+1 <= x10000, rejected with a non-zero status that is not a crash, accepted images exit as the machine model says. non-trivial = agreeing cases",
         true,
         &["round-trip-agreed", "unloadable-rejected", "loadable-accepted"],
         &["reference image = refmodel::asm; reference run = refmodel::vm"],
@@ -231,6 +258,14 @@ pub fn run(ctx: &Ctx) -> i32 {
 
 pub fn replay(ctx: &Ctx, case: &Value) -> Option<Option<String>> {
     let lace = Lace::new(&ctx.lace_bin, &ctx.scratch);
+    if case["loader_sparse"].as_bool() == Some(true) {
+        let name = if case["file"].as_str()?.ends_with("obj") { "r.obj" } else { "r.lc3" };
+        let path = lace.cwd.join(name);
+        std::fs::File::create(&path).and_then(|f| f.set_len(case["length"].as_u64().unwrap_or(0))).ok()?;
+        let r = lace.run_timeout(&["run", name, "--minimal"], b"", &[], None, 120);
+        let _ = std::fs::remove_file(&path);
+        return Some(if r.class() == "crash" || r.class() == "timeout" || r.status == 0 { Some(format!("exit status {} ({})", r.status, r.class())) } else { None });
+    }
     if case["loader"].as_bool() == Some(true) {
         let hex = case["bytes_hex"].as_str()?;
         let bytes: Vec<u8> = (0..hex.len() / 2).map(|i| u8::from_str_radix(&hex[2 * i..2 * i + 2], 16).unwrap()).collect();
